@@ -28,7 +28,15 @@ for name in names:
                            capture_output=True, text=True)
         keys = sorted(set(re.findall(r"key=(\S+)", p.stdout)))
         ok = p.returncode == 1 and "VIOLATION property=" in p.stdout
-        print(f"{name}: {'CAUGHT' if ok else 'MISSED'} exit={p.returncode} keys={keys[:4]}")
+        neutral = json.load(open(os.path.join(ROOT, "seeded", name, "meta.json"))).get("neutralised_by")
+        if neutral and not ok:
+            # a later fix: in /repo made this change harmless: its own demonstration must now pass WITH the change applied
+            d = subprocess.run(["/venv/bin/python", os.path.join(ROOT, "seeded", name, "demo.py")], cwd=wt,
+                               env=dict(os.environ, PYTHONPATH=wt), capture_output=True, text=True, timeout=900)
+            ok = d.returncode == 0 and p.returncode == 0
+            print(f"{name}: {'NEUTRALISED (demo passes with the change; ' + neutral[:60] + '...)' if ok else 'MISSED'} exit={p.returncode}")
+        else:
+            print(f"{name}: {'CAUGHT' if ok else 'MISSED'} exit={p.returncode} keys={keys[:4]}")
         bad += 0 if ok else 1
     finally:
         subprocess.run(["git", "-C", "/repo", "worktree", "remove", "--force", wt], capture_output=True)
